@@ -4,8 +4,9 @@ import (
 	"encoding/binary"
 	"errors"
 	"fmt"
-	"os"
 	"net/netip"
+	"os"
+	"runtime"
 	"sort"
 	"strconv"
 	"strings"
@@ -200,6 +201,9 @@ func opRace(st *state, args []string) []string {
 	}
 	if args[0] == "tplatomic" {
 		return opTplAtomic(args[1])
+	}
+	if args[0] == "tplstress" || args[0] == "ratestress" {
+		return opStoreStress(args[0], args[1])
 	}
 	n, err := strconv.Atoi(args[1])
 	if err != nil || n < 1 || n > 8 {
@@ -411,4 +415,79 @@ func opRace(st *state, args []string) []string {
 		ls[k] = strconv.Itoa(v)
 	}
 	return []string{fmt.Sprintf("res ok lost=[%s]", strings.Join(ls, ","))}
+}
+
+// race tplstress|ratestress <rounds> -: unscheduled announcements of ONE known exporter by several workers at the same
+// moment (the real template system / sampling system, no factory callbacks): per round 2..4 workers are released together,
+// each announces a template id (a rate for an observation domain) of its own; afterwards every announcement must be
+// there. A store whose update is read-copy-publish without holding the lock over all three loses announcements here.
+func opStoreStress(kind, roundsArg string) []string {
+	rounds, err := strconv.Atoi(roundsArg)
+	if err != nil || rounds < 1 || rounds > 5000 {
+		return []string{"bad-op"}
+	}
+	if runtime.GOMAXPROCS(0) < 2 {
+		defer runtime.GOMAXPROCS(runtime.GOMAXPROCS(2))
+	}
+	cfg, _ := (*protoproducer.ProducerConfig)(nil).Compile()
+	src := netip.MustParseAddrPort("10.1.2.3:4000")
+	prod, _ := protoproducer.CreateProtoProducer(cfg, protoproducer.CreateSamplingSystem)
+	capf := &captureFormat{}
+	pipe := utils.NewNetFlowPipe(&utils.PipeConfig{Format: capf, Producer: prod})
+	pargs := &producer.ProduceArgs{Src: src, SamplerAddress: src.Addr(), TimeReceived: time.Unix(1, 0)}
+	// first contact happens before the workers exist
+	pipe.DecodeFlow(&utils.Message{Src: src, Payload: v9Template(255), Received: time.Unix(1, 0)})
+	lostSet := map[int]bool{}
+	for r := 0; r < rounds; r++ {
+		k := 2 + r%3
+		start := make(chan struct{})
+		var wg sync.WaitGroup
+		for i := 0; i < k; i++ {
+			wg.Add(1)
+			go func(i int) {
+				defer wg.Done()
+				id := 256 + (r*4+i)%60000
+				<-start
+				if kind == "tplstress" {
+					pipe.DecodeFlow(&utils.Message{Src: src, Payload: v9Template(uint16(id)), Received: time.Unix(1, 0)})
+				} else {
+					v := make([]byte, 4)
+					binary.BigEndian.PutUint32(v, uint32(id))
+					pkt := &netflow.IPFIXPacket{Version: 10, ObservationDomainId: uint32(id), FlowSets: []interface{}{
+						netflow.OptionsDataFlowSet{Records: []netflow.OptionsDataRecord{{OptionsValues: []netflow.DataField{{Type: 34, Value: v}}}}}}}
+					set, _ := prod.Produce(pkt, pargs)
+					prod.Commit(set)
+				}
+			}(i)
+		}
+		close(start)
+		wg.Wait()
+		for i := 0; i < k; i++ {
+			id := 256 + (r*4+i)%60000
+			ok := false
+			if kind == "tplstress" {
+				ok = pipe.DecodeFlow(&utils.Message{Src: src, Payload: v9Data(uint16(id)), Received: time.Unix(2, 0)}) == nil
+			} else {
+				pkt := &netflow.IPFIXPacket{Version: 10, ObservationDomainId: uint32(id), FlowSets: []interface{}{
+					netflow.DataFlowSet{Records: []netflow.DataRecord{{Values: []netflow.DataField{{Type: 1, Value: []byte{0, 0, 0, 5}}}}}}}}
+				set, err := prod.Produce(pkt, pargs)
+				if err == nil && len(set) == 1 {
+					if m, isM := set[0].(*protoproducer.ProtoProducerMessage); isM && m.SamplingRate == uint64(id) {
+						ok = true
+					}
+				}
+				prod.Commit(set)
+			}
+			if !ok {
+				lostSet[i] = true
+			}
+		}
+	}
+	var lost []string
+	for i := 0; i < 4; i++ {
+		if lostSet[i] {
+			lost = append(lost, strconv.Itoa(i))
+		}
+	}
+	return []string{"res ok lost=[" + strings.Join(lost, ",") + "]"}
 }
